@@ -120,3 +120,105 @@ func runHexCases(seed uint64, n int, outDir string, extra map[string]interface{}
 	}
 	extra["csshex_cases"] = cnt
 }
+
+// Correspondence data for the Coq model Css/CssDim.v (numeric tokens of a declaration value: number, percentage, dimension;
+// KeepCSS2 on and off; integer properties; inside a function): generated tokens through the real css.Minify in a
+// declaration of an unknown property (so that only minifyTokens acts on them).
+func runDimCases(seed uint64, n int, outDir string, extra map[string]interface{}) {
+	fin, _ := os.OpenFile(filepath.Join(outDir, "cases.in"), os.O_APPEND|os.O_WRONLY, 0o644)
+	fout, _ := os.OpenFile(filepath.Join(outDir, "cases.go.out"), os.O_APPEND|os.O_WRONLY, 0o644)
+	defer fin.Close()
+	defer fout.Close()
+	m := minify.New()
+	x := seed*0x9E3779B97F4A7C15 + 777
+	rnd := func(k int) int {
+		x ^= x << 13
+		x ^= x >> 7
+		x ^= x << 17
+		return int(x>>11) % k
+	}
+	pick := func(l ...string) string { return l[rnd(len(l))] }
+	digits := func(k int) string {
+		b := make([]byte, k)
+		for i := range b {
+			b[i] = "0123456789"[rnd(10)]
+			if rnd(3) == 0 {
+				b[i] = '0'
+			}
+		}
+		return string(b)
+	}
+	number := func() string {
+		s := pick("", "", "", "+", "-")
+		switch rnd(6) {
+		case 0:
+			s += digits(1 + rnd(4))
+		case 1:
+			s += digits(rnd(3)) + "." + digits(1+rnd(4))
+		case 2:
+			s += "0" + pick("", ".0", ".00", "00")
+		case 3:
+			s += digits(1+rnd(3)) + pick("e", "E") + pick("", "+", "-") + digits(1+rnd(2))
+		case 4:
+			s += digits(rnd(2)) + "." + digits(1+rnd(3)) + pick("e", "E") + pick("", "-") + digits(1)
+		default:
+			s += pick("0", "00", "0.0", ".0", "0e5", "0.0e3", "00012", "1000", "10", "0.50", "1.0", "100.0")
+		}
+		return s
+	}
+	units := []string{"px", "em", "rem", "ex", "ch", "vw", "vh", "vmin", "vmax", "cm", "mm", "q", "in", "pt", "pc", "deg", "grad", "rad", "turn", "s", "ms", "hz", "khz", "dpi", "dpcm", "dppx", "fr", "x", "e", "PX", "Em", "REM", "S", "Q"}
+	counts := map[string]int{}
+	cnt := 0
+	for i := 0; i < n; i++ {
+		keep := rnd(3) == 0
+		kind := pick("num", "num", "int", "pct", "dim", "dim", "dim", "dimfun", "dimunk")
+		tok := number()
+		prop, pre, post := "x", "", ""
+		switch kind {
+		case "int":
+			prop = pick("z-index", "orphans", "widows")
+		case "pct":
+			tok += "%"
+		case "dim":
+			tok += units[rnd(len(units))]
+		case "dimfun": // inside a function the minifier knows: the unit of a zero stays
+			tok += units[rnd(len(units))]
+			pre, post = pick("min(", "max(", "var(", "calc("), ")"
+		case "dimunk": // an unknown function has hash 0, like no function at all
+			tok += units[rnd(len(units))]
+			pre, post = "f(", ")"
+		}
+		src := "a{" + prop + ":" + pre + tok + post + "}"
+		var out bytes.Buffer
+		if err := (&cssmin.Minifier{KeepCSS2: keep}).Minify(m, &out, strings.NewReader(src), nil); err != nil {
+			continue
+		}
+		o := out.String()
+		wantPre, wantPost := "a{"+prop+":"+pre, post+"}"
+		if !strings.HasPrefix(o, wantPre) || !strings.HasSuffix(o, wantPost) {
+			counts["skipped-shape"]++
+			continue
+		}
+		o = strings.TrimSuffix(strings.TrimPrefix(o, wantPre), wantPost)
+		k := "0"
+		if keep {
+			k = "1"
+		}
+		// whether the implementation dropped the unit of a zero (it misses most opportunities: see Css/CssDim.v); the model
+		// accepts a drop only where it is allowed
+		drops := "0"
+		if o == "0" && tok != "0" && (kind == "dim" || kind == "dimunk" || kind == "dimfun") {
+			drops = "1"
+			counts["unit-dropped"]++
+		}
+		fmt.Fprintf(fin, "cssdim\t%s\t%s\t%s\t%x\n", kind, k, drops, tok)
+		fmt.Fprintf(fout, "%x\n", o)
+		counts[kind]++
+		if o != tok {
+			counts["rewritten"]++
+		}
+		cnt++
+	}
+	extra["cssdim_cases"] = cnt
+	extra["cssdim_kinds"] = counts
+}
